@@ -293,3 +293,37 @@ func VerifC09_AsyncParentAssigns() {
 	zzverif.Assert(v == interface{}(a+1+a), "async-parent-assigns: result depends on the schedule or is wrong")
 	zzverif.Reach("async5")
 }
+
+// async blocks spawned from nested scopes (the first statement of an if / while
+// body, a scope with no bindings of its own yet) while the parent goes on
+// assigning a variable of an enclosing scope: the block works on the values of
+// the moment it was spawned
+func VerifC09_AsyncFromNestedScope() {
+	a, b := zzverif.Int64("a"), zzverif.Int64("b")
+	form := zzverif.Choice("form", 3)
+	spawn := zzLet("f", zzAsync(zzRet(zzAdd(zzVar("x"), zzInt(1)))))
+	bump := ast.ReassignStatement{Target: "x", Value: zzInt(b)}
+	await := zzLet("r", zzAwait(zzVar("f")))
+	var nested ast.Statement
+	switch form {
+	case 0:
+		nested = ast.IfStatement{Condition: ast.LiteralExpr{Value: ast.BoolLiteral{Value: true}}, ThenBlock: []ast.Statement{spawn, bump, await, ast.ReassignStatement{Target: "out", Value: zzVar("r")}}}
+	case 1:
+		nested = ast.WhileStatement{Condition: ast.BinaryOpExpr{Op: ast.Lt, Left: zzVar("n"), Right: zzInt(1)}, Body: []ast.Statement{spawn, bump, await,
+			ast.ReassignStatement{Target: "out", Value: zzVar("r")}, ast.ReassignStatement{Target: "n", Value: zzAdd(zzVar("n"), zzInt(1))}}}
+	default:
+		nested = ast.IfStatement{Condition: ast.LiteralExpr{Value: ast.BoolLiteral{Value: true}}, ThenBlock: []ast.Statement{
+			zzLet("local", zzInt(5)), spawn, bump, zzLet("other", zzInt(6)), await, ast.ReassignStatement{Target: "out", Value: zzVar("r")}}}
+	}
+	v, ok := zzRunRoute(
+		zzLet("x", zzInt(a)),
+		zzLet("out", zzInt(0)),
+		zzLet("n", zzInt(0)),
+		nested,
+		zzRet(zzVar("out")),
+	)
+	want := a + 1
+	zzverif.Assert(ok, "async-from-nested-scope: route failed")
+	zzverif.Assert(v == interface{}(want), "async-from-nested-scope: the block saw the parent's later assignment (result depends on the schedule)")
+	zzverif.Reach("async-nested-scope")
+}
